@@ -83,7 +83,9 @@ def make_lumped(rnd, f):
         C_ = rnd.choice([None, logu(rnd, -15, -3)])
         if R is None and L is None and C_ is None:
             R = 1.0
-        return Series_RLC_Load(R=R, L=L, C=C_), z_rlc(R, L, C_, f), kind
+        # an element that is absent may also be written as an explicit zero (--rlc-load=50,2e-6,0)
+        zero = lambda x: (rnd.choice([None, 0, 0.0]) if x is None else x)
+        return Series_RLC_Load(R=zero(R), L=zero(L), C=zero(C_)), z_rlc(R, L, C_, f), kind
     if kind == 'TRAP':
         R, L, C_ = logu(rnd, -3, 3), logu(rnd, -9, -3), logu(rnd, -13, -7)
         return Trap_Load(R, L, C_), z_trap(R, L, C_, f), kind
